@@ -245,4 +245,80 @@ theorem flatMap_filter_perm {α κ} [BEq κ] [LawfulBEq κ] (key : α → κ) (k
       · exact h)
     exact (List.Perm.append_left _ ih').trans (List.filter_append_perm _ l)
 
+/-! ### slices, source lookup, `mapM` -/
+
+theorem perm_flatMap_blocks {α β} {l : List α} {f g : α → List β} (h : ∀ a ∈ l, (f a).Perm (g a)) :
+    (l.flatMap f).Perm (l.flatMap g) := by
+  induction l with
+  | nil => exact List.Perm.refl _
+  | cons a l ih =>
+    rw [List.flatMap_cons, List.flatMap_cons]
+    exact List.Perm.append (h a (by simp)) (ih (fun x hx => h x (by simp [hx])))
+
+theorem find?_map_key {κ β} [BEq κ] [LawfulBEq κ] (ks : List κ) (F : κ → β) (k0 : κ) :
+    (ks.map (fun k => (k, F k))).find? (fun e => e.1 == k0) =
+      if k0 ∈ ks then some (k0, F k0) else none := by
+  induction ks with
+  | nil => rfl
+  | cons k ks ih =>
+    simp only [List.map_cons, List.find?_cons]
+    by_cases h : k = k0
+    · subst h; simp
+    · have hb : (k == k0) = false := by simpa using h
+      simp only [hb, ih]
+      have : (k0 ∈ k :: ks) ↔ k0 ∈ ks := by
+        rw [List.mem_cons]
+        exact ⟨fun h' => h'.resolve_left (fun e => h e.symm), Or.inr⟩
+      by_cases hm : k0 ∈ ks
+      · rw [if_pos hm, if_pos (this.mpr hm)]
+      · rw [if_neg hm, if_neg (fun h' => hm (this.mp h'))]
+
+theorem slices_eq (t : List Cell) :
+    Triangle.slices t =
+      (firstKeys (fun c : Cell => c.md) t).map
+        (fun m => (m, (t.filter (fun c => c.md == m)).mergeSort Cell.le)) := rfl
+
+/-- in a sorted source the slice of `m` is the filtered list itself -/
+theorem slice_sorted {src : List Cell} (hs : src.Pairwise (fun a b => Cell.le a b)) (m : Metadata) :
+    (src.filter (fun c => c.md == m)).mergeSort Cell.le = src.filter (fun c => c.md == m) :=
+  mergeSort_sublist_sorted (cmp := Cell.cmp) List.filter_sublist hs
+
+/-- the literal lookup chain (`slices.get` → `groupby(period)` → latest → `.get(period)`) finds the
+same source cell as the direct filter, for a sorted source -/
+theorem sourceIndexedGet_eq {src : List Cell} (c : Cell) :
+    sourceIndexedGet (src.filter (fun s => s.md == c.md)) c = sourceCell? src c := by
+  have h1 : sourceIndexedGet (src.filter (fun s => s.md == c.md)) c =
+      lastBy? evLe (groupGet (groupBy (fun s : Cell => (s.ps, s.pe))
+        (src.filter (fun s => s.md == c.md))) (c.ps, c.pe)) := by
+    unfold sourceIndexedGet groupGet
+    cases (groupBy (fun s : Cell => (s.ps, s.pe)) (src.filter (fun s => s.md == c.md))).find?
+      (fun e => e.1 == (c.ps, c.pe)) with
+    | some e => rfl
+    | none => simp [lastBy?]
+  rw [h1, groupGet_groupBy, List.filter_filter]
+  unfold sourceCell?
+  congr 1
+  apply List.filter_congr
+  intro s _
+  show ((s.ps == c.ps && s.pe == c.pe) && s.md == c.md) = (s.md == c.md && s.ps == c.ps && s.pe == c.pe)
+  cases s.ps == c.ps <;> cases s.pe == c.pe <;> cases s.md == c.md <;> rfl
+
+theorem mapM_ok_of_all {α β ε} {f : α → Except ε β} {g : α → β} {l : List α}
+    (h : ∀ a ∈ l, f a = .ok (g a)) : l.mapM f = .ok (l.map g) := by
+  induction l with
+  | nil => rfl
+  | cons a l ih =>
+    rw [List.mapM_cons, h a (by simp), ih (fun x hx => h x (by simp [hx]))]
+    rfl
+
+/-- index of `period_merge` -/
+def pmIdx (c : Cell) : Date × Date × Metadata := (c.ps, c.pe, c.md)
+
+theorem filter_samePeriodKey (b : List Cell) (c : Cell) :
+    b.filter (samePeriodKey c) = b.filter (fun r => pmIdx r == pmIdx c) := by
+  apply List.filter_congr
+  intro r _
+  show (r.ps == c.ps && r.pe == c.pe && r.md == c.md) = (r.ps == c.ps && (r.pe == c.pe && r.md == c.md))
+  rw [Bool.and_assoc]
+
 end Bermuda.JoinL
